@@ -20,7 +20,7 @@ EXTENDS Integers, Sequences, FiniteSets, TLC, Json
 
 \* ---- content classes ---------------------------------------------------------
 Content == {"out-addr", "out-split", "fee-shift", "arb", "claim", "contract", "revision", "renewal-final",
-            "renewal-new", "attest-value", "fnd-addr", "uncovered-out", "second-out"}
+            "renewal-new", "attest-value", "fnd-addr", "uncovered-out", "second-out", "arb-shift"}
 Witness == {"sig-flip", "sig-drop", "sig-extra", "sig-swap", "sig-dup-key", "pre-wrong", "pre-extra", "pre-drop",
             "in2-sig-flip", "in2-sig-drop", "in2-sig-zero", "in2-sig-extra"}    \* the witnesses of a second input from the same address
 Keys    == {"other-policy", "other-key", "proposed-keys", "renew-other-keys", "renew-stale-keys", "attest-other-key",
@@ -35,12 +35,13 @@ Shape(has, covered, wit, any, keys) == [has |-> has, covered |-> covered, wit |-
 AllPay == {"out-addr", "out-split", "fee-shift", "arb"}
 Shapes == [
   \* alg-swap: the same key bytes presented under an algorithm nobody verifies - other unlock conditions, another address
-  v1whole    |-> Shape(AllPay, AllPay, {"sig"}, FALSE, {"other-policy", "other-key", "alg-swap"}),
+  \* (arb-shift: bytes moved across the boundary of two arbitrary-data entries - same count, same concatenation)
+  v1whole    |-> Shape(AllPay \cup {"arb-shift"}, AllPay \cup {"arb-shift"}, {"sig"}, FALSE, {"other-policy", "other-key", "alg-swap"}),
   v1partial  |-> Shape(AllPay \cup {"uncovered-out"}, {"out-addr", "out-split", "fee-shift"}, {"sig"}, FALSE, {"other-policy", "other-key"}),
   \* a partial signature naming output 1 only (the list of covered outputs is not a prefix of the outputs): output 1 is
   \* bound, output 0 and the memo are not
   v1partial1 |-> Shape(AllPay \cup {"second-out"}, {"second-out", "out-split", "fee-shift"}, {"sig"}, FALSE, {"other-policy", "other-key"}),
-  v1multisig |-> Shape(AllPay, AllPay, {"sig", "sig2"}, FALSE, {"other-policy", "other-key"}),
+  v1multisig |-> Shape(AllPay \cup {"arb-shift"}, AllPay \cup {"arb-shift"}, {"sig", "sig2"}, FALSE, {"other-policy", "other-key"}),
   \* a key of an unknown algorithm is satisfied by any signature bytes (documented legacy rule), so nothing binds the content
   v1unknown  |-> Shape(AllPay, {}, {"sig"}, TRUE, {"other-policy"}),
   v1sf       |-> Shape({"claim", "out-addr", "arb"}, {"claim", "out-addr", "arb"}, {"sig"}, FALSE, {"other-policy", "other-key", "alg-swap"}),
